@@ -76,6 +76,7 @@ type FuncSpec struct {
 	Trusted  bool
 	Pure     bool
 	NoSafety bool // do not emit zero-annotation safety obligations
+	CalledOnlyBy []string // the only functions of the package that may call this one
 	Terminates bool // every activation ends: only finite range loops or loops with a decreases clause, no recursion
 	File     string
 	Line     int
@@ -134,7 +135,7 @@ var clauseKeywords = map[string]bool{
 	"props": true, "trusted": true, "pure": true, "requires": true, "ensures": true,
 	"modifies": true, "ghost": true, "use": true, "on": true, "after": true, "before": true,
 	"loop": true, "invariant": true, "hint": true, "preserved": true, "apply": true, "decreases": true, "nonnil": true, "lock": true,
-	"lockinv": true, "guarantee": true, "rely": true, "fresh": true, "exit": true, "flows": true, "assigns": true, "assumes": true, "holds": true, "allocates": true, "deadreturn": true, "bind": true, "locals": true, "nilable": true, "nosafety": true, "terminates": true, "forbids": true, "acquires": true, "lockorder": true, "using": true,
+	"lockinv": true, "guarantee": true, "rely": true, "fresh": true, "exit": true, "flows": true, "assigns": true, "assumes": true, "holds": true, "allocates": true, "deadreturn": true, "bind": true, "locals": true, "nilable": true, "nosafety": true, "terminates": true, "calledonlyby": true, "forbids": true, "acquires": true, "lockorder": true, "using": true,
 }
 
 type rawClause struct {
@@ -318,6 +319,11 @@ func parseContractFile(path string, requirePrefix bool) (*ContractFile, error) {
 				return nil, errf(rc, "pure outside func")
 			}
 			curF.Pure = true
+		case "calledonlyby":
+			if curF == nil {
+				return nil, errf(rc, "calledonlyby outside func")
+			}
+			curF.CalledOnlyBy = append(curF.CalledOnlyBy, splitNames(rc.rest)...)
 		case "terminates":
 			if curF == nil {
 				return nil, errf(rc, "terminates outside func")
